@@ -58,6 +58,24 @@ def sniff(path):
     return {"empty": os.path.getsize(path) == 0, "gzip": bool(is_gzip(path)), "hdf5": bool(h5py.is_hdf5(path))}
 
 
+def unsafe_views(raw, n, m):
+    """scipy does not bounds-check the arrays it is handed: a file whose matrix arrays point outside
+    the announced shape would crash the interpreter instead of raising.  Such a file is reported as a
+    violation without being loaded."""
+    for axname, major, minor in (("observation", n, m), ("sample", m, n)):
+        g = ((raw.get(axname) or {}).get("matrix") or {})
+        try:
+            ip = [int(x) for x in g["indptr"]["cells"]]
+            ix = [int(x) for x in g["indices"]["cells"]]
+            nd = len(g["data"]["cells"])
+        except (KeyError, TypeError, ValueError):
+            continue                      # missing / non-numeric: the loaders raise cleanly
+        if len(ip) != major + 1 or (ip and (ip[0] != 0 or ip[-1] != nd)) or len(ix) != nd \
+                or any(a > b for a, b in zip(ip, ip[1:])) or any(not 0 <= j < minor for j in ix):
+            return axname
+    return None
+
+
 def write_read_load(case, tmp=TMP):
     t = c04.build_table(case)
     path = os.path.join(tmp, "c_%d.biom" % os.getpid())
@@ -70,7 +88,12 @@ def write_read_load(case, tmp=TMP):
         gen_by, date = c04.write_file(case, t, path)
         raw = c04.raw_tree(path)
         sn = sniff(path)
-        results = [(ld, ax, run_loader(path, ld, ax)) for ld, ax in LOADERS]
+        bad = unsafe_views(raw, len(src["obs"]), len(src["samp"]))
+        if bad is None:
+            results = [(ld, ax, run_loader(path, ld, ax)) for ld, ax in LOADERS]
+        else:
+            results = [(ld, ax, {"error": "Other", "message": "not loaded: %s/matrix arrays leave the shape" % bad,
+                                 "unsafe": bad}) for ld, ax in LOADERS]
     finally:
         if os.path.exists(path):
             os.remove(path)
@@ -91,6 +114,10 @@ def check_case(ctx, case, tmp=TMP):
                 ctx.count("md=" + v["t"] + ("/special" if k in c04.SPECIAL else "") + ("/slash" if "/" in k else ""))
     out = []
     for ld, ax, res in results:
+        if res.get("unsafe"):
+            ctx.fail({"case": case, "loader": ld, "axis": ax}, "C01.file-not-loadable", tags0 + ["unsafe=" + res["unsafe"]],
+                     detail={"why": res["message"]})
+            continue
         req = dict(base, loader=ld, axis=ax, sniff=sn, obs={k: v for k, v in res.items() if k != "message"})
         r = ctx.driver.ask(req)
         tags = tags0 + ["loader=" + ld, "axis=" + ax]
